@@ -15,14 +15,15 @@
    The actions are the node-level calls as the scheduler issues them (framework/statement.go,
    actions/common/allocate.go, gpu_sharing/gpuSharing.go, cache snapshot):
      SnapAdd                 snapshot: AddTask of Running/Releasing/Bound/Binding pods, any order
-     Place (allocate action) Statement.Allocate -> AddTask(Allocated)  |  Statement.Pipeline -> AddTask(Pipelined)
-     Place (solvers)         pipeline only: AddTask(Pipelined) | Unevict (pod virtually evicted, same
+     Place (allocate action) Allocate = Statement.Allocate -> AddTask(Allocated)  |  Pipeline = Statement.Pipeline
+                             -> AddTask(Pipelined)
+     Place (solvers)         PipelineOnly: AddTask(Pipelined) | Unevict (pod virtually evicted, same
                              groups) | Consolidate (virtually evicted fraction pod moved to other group)
      Evict                   UpdateTask(-> Releasing)
      UndoLast                Rollback/Discard: unallocate/unpipeline = RemoveTask, unevict = UpdateTask
                              or AddTask when the pod is no longer on the node
      Convert*                ConvertAllAllocatedToPipelined: per allocate op in log order:
-                             unallocate (RemoveTask) then Pipeline(update) (AddTask(Pipelined, same groups))
+                             unallocate (RemoveTask) then ConvPipeline = Pipeline(update) (AddTask(Pipelined, same groups))
      Commit / CommitFail     no node call / unallocate of the failed bind, rest of the log abandoned
    Guards are the scheduler's own fit checks evaluated on the transcribed accounting
    (IsTaskAllocatable, IsTaskAllocatableOnReleasingOrIdle, FittingGPUs, GetNodePreferableGpuForSharing).
@@ -343,7 +344,7 @@ PlaceB(p) ==
             /\ f >= 0 /\ f <= WholeSlots(A) /\ seen + f <= Len(GroupSeq)
             /\ seen' = seen + f
             /\ IF pods[p].st = "None"
-               THEN /\ Do("Pipeline", "Add", p, "Pipelined", grp)
+               THEN /\ Do("PipelineOnly", "Add", p, "Pipelined", grp)
                     /\ log' = Append(log, Rec(p, "pipe", "B", "None", <<>>)) /\ ghost' = ghost
                ELSE IF grp # pods[p].grp
                     \* Statement.Pipeline: isSharedAndMoveToDifferentGPU -> ConsolidateSharedPodInfoToDifferentGPU
@@ -356,7 +357,7 @@ PlaceB(p) ==
                          /\ log' = RemoveAt(log, i) /\ ghost' = ghost
      ELSE /\ seen' = seen /\ ghost' = ghost
           /\ IF pods[p].st = "None"
-             THEN Do("Pipeline", "Add", p, "Pipelined", <<>>) /\ log' = Append(log, Rec(p, "pipe", "B", "None", <<>>))
+             THEN Do("PipelineOnly", "Add", p, "Pipelined", <<>>) /\ log' = Append(log, Rec(p, "pipe", "B", "None", <<>>))
              ELSE LET i == EvictIdx(p) IN
                   Do("Unevict", "Update", p, log[i][4], log[i][5]) /\ log' = RemoveAt(log, i)
   /\ UNCHANGED <<nd, kinds, phase, pc>>
@@ -393,7 +394,7 @@ ConvertPipe ==
   /\ phase = "sess" /\ Len(pc) = 3 /\ pc[1] = "convpipe" /\ nops < MaxOps
   /\ pc' = <<"conv">>
   /\ log' = Append(log, Rec(pc[2], "pipe", "A", "None", <<>>))
-  /\ Do("Pipeline", "Add", pc[2], "Pipelined", pc[3])
+  /\ Do("ConvPipeline", "Add", pc[2], "Pipelined", pc[3])
   /\ UNCHANGED <<nd, kinds, ghost, phase, seen>>
 
 \* ---- Commit: no node call; Allocated clones stay Allocated (BindPod updates the job only) ----
